@@ -18,7 +18,8 @@ EXPLANATION = (
     're-establishes "none of _full_F, _full_W_H, _full_W and the dual pair _W/_W_H is stale w.r.t. _F, _P and each '
     'other" (abstract interpretation, lattice NONE<CLEAN<DIRTY, receiver-sensitive, dict-dispatch resolved). '
     'C10.b (ownership): the only writers of solver state from outside the class hierarchy are the two frozen '
-    'stream-selection wrappers. Not decided: unit norms, power budget, alignment, monotone leakage (numeric).')
+    'stream-selection wrappers. Not decided: unit norms, power budget, alignment, monotone leakage (numeric).'
+    ' General rules also applied here (see DESIGN 10.5): validate-before-commit (no `raise` reachable after the object was already changed in a public mutator); a position in a filtered list is never used as a per-user index.')
 
 PROTECTED = {'_F', '_full_F', '_W', '_W_H', '_full_W_H', '_full_W', '_P', '_Ns'}
 FROZEN_FOREIGN = {
